@@ -676,8 +676,14 @@ impl RtrPerAddrMetrics {
             return addrs[idx].1.clone()
         }
 
+        #[cfg(feature = "verif-hooks")]
+        crate::verif::yield_point("rtr_metrics.before_lock");
+
         // We don’t. Create a new slice with the address included.
         let _write = self.write.lock();
+
+        #[cfg(feature = "verif-hooks")]
+        crate::verif::yield_point("rtr_metrics.locked");
 
         // Re-load self.addrs, it may have changed since.
         let addrs = self.addrs.load();
@@ -693,6 +699,8 @@ impl RtrPerAddrMetrics {
         new_addrs.push((addr, Default::default()));
         new_addrs.extend_from_slice(&addrs[idx..]);
         let res = new_addrs[idx].1.clone();
+        #[cfg(feature = "verif-hooks")]
+        crate::verif::yield_point("rtr_metrics.before_store");
         self.addrs.store(new_addrs.into());
         res
     }
